@@ -22,7 +22,6 @@ use tantivy_common::TinySet;
 use vh::trace::Tracer;
 use vh::Args;
 
-const U: u32 = 5;
 
 fn bits(s: f32) -> i64 {
     s.to_bits() as i32 as i64
@@ -40,7 +39,9 @@ fn panic_msg(e: Box<dyn std::any::Any + Send>) -> String {
 
 /// Index in which abstract document i (0..U) is the stripe of real documents [i*r, (i+1)*r) and
 /// every non-empty subset `mask` of the abstract documents is the answer of several queries.
-fn stripe_index(r: u32) -> tantivy::Result<(Index, Schema)> {
+fn stripe_index(r: u32, nabs: u32) -> tantivy::Result<(Index, Schema)> {
+    #[allow(non_snake_case)]
+    let U = nabs;
     let mut sb = Schema::builder();
     let m = sb.add_text_field("m", TEXT);
     let ph = sb.add_text_field("ph", TEXT);
@@ -96,9 +97,11 @@ struct Avoid {
     bitset: bool,
     union_fill: bool,
     inter_count: bool,
+    union_danger: bool,
+    union_member: bool,
 }
 
-fn run_prog(sc: &mut Box<dyn Scorer>, prog: &[Value], scoring: bool, avoid: Avoid) -> Vec<Value> {
+fn run_prog(sc: &mut Box<dyn Scorer>, prog: &[Value], scoring: bool, avoid: Avoid, seq: &[u32]) -> Vec<Value> {
     let (avoid_bitset, avoid_union_fill) = (avoid.bitset, avoid.union_fill);
     let mut score_tainted = false;
     let mut out = vec![];
@@ -135,6 +138,16 @@ fn run_prog(sc: &mut Box<dyn Scorer>, prog: &[Value], scoring: bool, avoid: Avoi
                             return None;
                         }
                         t = cur.last_danger + 1;
+                    }
+                    // recorded finding: a union member left in the danger zone after a miss is later taken as a match:
+                    // for such scorers only issue seek_danger calls that hit (S is used to choose inputs, never to judge)
+                    if avoid.union_member && seq.binary_search(&t).is_err() {
+                        return None;
+                    }
+                    // recorded finding: BufferedUnionScorer::seek_danger with a target before its buffered window;
+                    // for scorers that may contain a union, continue a chain at or after the returned lower bound
+                    if avoid.union_danger && cur.chain && !cur.valid {
+                        t = t.max(cur.last_lb);
                     }
                     let r = sc.seek_danger(t);
                     cur.chain = true;
@@ -260,7 +273,7 @@ fn run_scorer_case(tracer: &Tracer, w: &dyn Weight, sr: &tantivy::SegmentReader,
                 let rec = match catch_unwind(AssertUnwindSafe(|| w.scorer(sr, 1.0))) {
                     Ok(Ok(mut sc)) => {
                         let mut rec = vec![json!({"op":"init","ret":sc.doc()})];
-                        rec.extend(run_prog(&mut sc, p, scoring, avoid));
+                        rec.extend(run_prog(&mut sc, p, scoring, avoid, &seq));
                         rec
                     }
                     Ok(Err(e)) => vec![json!({"op":"panic","in":"scorer","msg":e.to_string()})],
@@ -310,7 +323,7 @@ fn rich_index(seed: u64, ndocs: usize, bigseg: bool) -> (Index, Schema, Value, S
 
 fn stripes(a: &Args, tracer: &Tracer) {
     let f = std::fs::File::open(a.get("in", "")).expect("open --in");
-    let mut idx: HashMap<u32, (Index, Schema)> = HashMap::new();
+    let mut idx: HashMap<(u32, u32), (Index, Schema)> = HashMap::new();
     let mut rich: HashMap<String, (Index, Schema)> = HashMap::new();
     let avoid = !a.flag("no-avoid");
     tracer.emit(json!({"ev":"reset","mode":"cases"}));
@@ -329,10 +342,11 @@ fn stripes(a: &Args, tracer: &Tracer) {
             rich.get(&key).unwrap()
         } else {
             let r = c["r"].as_u64().unwrap() as u32;
-            if !idx.contains_key(&r) {
-                idx.insert(r, stripe_index(r).expect("stripe index"));
+            let u = c.get("u").and_then(|x| x.as_u64()).unwrap_or(5) as u32;
+            if !idx.contains_key(&(r, u)) {
+                idx.insert((r, u), stripe_index(r, u).expect("stripe index"));
             }
-            idx.get(&r).unwrap()
+            idx.get(&(r, u)).unwrap()
         };
         let scoring = c["scoring"].as_bool().unwrap_or(true);
         let progs: Vec<Vec<Value>> = c["progs"].as_array().unwrap().iter().map(|p| p.as_array().unwrap().clone()).collect();
@@ -343,6 +357,8 @@ fn stripes(a: &Args, tracer: &Tracer) {
         match weight_of(index, schema, &c["q"], scoring) {
             Ok((w, searcher)) => {
                 let av = Avoid { bitset: avoid && qlib::has_bitset_leaf(schema, &c["q"]), union_fill: avoid && qlib::has_union(&c["q"]),
+                                 union_danger: avoid && qlib::has_union_anywhere(&c["q"]),
+                                 union_member: avoid && qlib::union_has_danger_member(&c["q"]),
                                  inter_count: avoid && qlib::may_be_intersection(&c["q"]) };
                 for (ord, sr) in searcher.segment_readers().iter().enumerate() {
                     run_scorer_case(tracer, w.as_ref(), sr, ord, &c["q"], scoring, &progs, &extra, av);
@@ -472,7 +488,7 @@ fn random(a: &Args, tracer: &Tracer) {
             };
             let progs: Vec<Vec<Value>> = (0..nprogs).map(|_| gen_prog(&mut rng, &seq, sr.max_doc(), maxlen, !a.flag("stop-at-count"))).collect();
             run_scorer_case(tracer, w.as_ref(), sr, ord, &q, scoring, &progs, &json!({"qi":qi}),
-                            Avoid { bitset: avoid && qlib::has_bitset_leaf(&schema, &q), union_fill: avoid && qlib::has_union(&q), inter_count: avoid && qlib::may_be_intersection(&q) });
+                            Avoid { bitset: avoid && qlib::has_bitset_leaf(&schema, &q), union_fill: avoid && qlib::has_union(&q), union_danger: avoid && qlib::has_union_anywhere(&q), union_member: avoid && qlib::union_has_danger_member(&q), inter_count: avoid && qlib::may_be_intersection(&q) });
         }
     }
 }
